@@ -555,8 +555,10 @@ func seqScenario(f flavour, depth int, rich bool) explore.Scenario {
 // ---------------------------------------------------------------- C01b: concurrent histories + porcupine
 
 type hin struct {
-	o   op
-	ver int
+	o    op
+	ver  int
+	prep mres // update: the content of the object the client submits (built from the initial state)
+	has  bool
 }
 
 type hout struct {
@@ -579,6 +581,13 @@ var pmodel = porcupine.Model{
 				return o.obs == m[i.o.id].snap(i.o.id), st
 			case "list":
 				return o.obs == strings.TrimSuffix(m.canon(), "; "), st
+			}
+			if i.o.kind == "update" && i.has {
+				// Update stores the whole submitted object with the next version
+				n := i.prep
+				n.version = m[i.o.id].version + 1
+				m[i.o.id] = n
+				return true, encode(m)
 			}
 			applyModel(m, i.o)
 			return true, encode(m)
@@ -689,8 +698,11 @@ func concScenario(ops []op, ini int, nsFlavour bool, bounds []int) explore.Scena
 			for i, o := range ops {
 				ver := resolveVersion(m0, o)
 				var obj *conformance.IntResource
+				var prep mres
+				has := false
 				if o.kind == "update" {
 					obj = buildUpdate(ctx, st, m0, o, ver)
+					prep, has = mres{owner: obj.Metadata().Owner(), td: obj.Metadata().Phase() == resource.PhaseTearingDown, fin: obj.Metadata().Finalizers().Has("f"), val: obj.Value()}, true
 				}
 				vrt.GoNamed(fmt.Sprintf("client%d", i), func() {
 					clock++
@@ -702,7 +714,7 @@ func concScenario(ops []op, ini int, nsFlavour bool, bounds []int) explore.Scena
 						}
 					}
 					clock++
-					hist[i] = porcupine.Operation{ClientId: i, Input: hin{o, ver}, Call: call, Output: hout{cls, obs}, Return: clock}
+					hist[i] = porcupine.Operation{ClientId: i, Input: hin{o, ver, prep, has}, Call: call, Output: hout{cls, obs}, Return: clock}
 					done[i] = true
 				})
 			}
